@@ -32,6 +32,9 @@ var c27groups = []c27group{
 	{"initialize", "class Alpha\n  def initialize(v, w)\n    @v = v\n    @w = w\n  end\n\n  def v\n    @v\n  end\nend\n",
 		[]string{"a = %Q%Alpha.new(1, \"s\")", "dbtp a.v", "%Q%Alpha.new(1)", "%Q%Alpha.new"},
 		"class Alpha\n  def initialize\n  end\n\n  def v\n    :sym\n  end\nend\n"},
+	{"nested-class-parent-outside", "class Sizer\n  def size\n    1\n  end\nend\nmodule Tagged\n  def tag\n    :sym\n  end\nend\nclass Outer\n  class Inner < Sizer\n    include Tagged\n    def val\n      size\n    end\n  end\nend\n",
+		[]string{"i = %Q%Outer::Inner.new", "dbtp i.val", "dbtp i.size", "dbtp i.tag", "i.nope"},
+		"class Sizer\n  def size\n    \"s\"\n  end\nend\nmodule Tagged\n  def tag\n    [1]\n  end\nend\n"},
 	{"classmethod-chain", "class Alpha\n  def self.build\n    Beta.new\n  end\nend\nclass Beta\n  def run\n    \"s\"\n  end\nend\n",
 		[]string{"r = %Q%Alpha.build", "dbtp r.run", "r.nope", "%Q%Beta.build"},
 		"class Beta\n  def run\n    1\n  end\n\n  def self.build\n    1\n  end\nend\n"},
